@@ -21,7 +21,7 @@ type c07dims struct {
 }
 
 func (d c07dims) scenario() *DialScenario {
-	hosts := []string{"verif.example", "localhost", "localhost.mail-relay.example", "LOCALHOST"}
+	hosts := []string{"verif.example", "localhost", "localhost.mail-relay.example", "LOCALHOST", longHost}
 	sc := &DialScenario{Host: hosts[d.host], Policy: d.policy, AuthType: allAuthTypes[d.auth], User: "verif-user", Pass: "S3cr3t-Passw0rd!", Script: map[int]SrvAction{}}
 	caps := []string{"8BITMIME", "ENHANCEDSTATUSCODES"}
 	if d.adv == 1 {
@@ -37,6 +37,16 @@ func (d c07dims) scenario() *DialScenario {
 		sc.BadCert = "untrusted"
 	} else {
 		sc.BadCert = "wrongname"
+	}
+	if d.host == 4 {
+		// the long host name: the client has no TLS configuration of its own; the wrong certificate is one that is
+		// valid for the first 255 characters of the name
+		sc.DefaultTLS = true
+		if d.hs == 1 {
+			sc.BadCert = "prefix255"
+		}
+	} else if (d.policy+d.auth+d.adv+d.authList)%4 == 3 {
+		sc.DefaultTLS = true
 	}
 	loginSteps := -1 // -1: no LOGIN exchange is running
 	sc.dynamic = func(pos int, verb, line string) (SrvAction, bool) {
@@ -157,6 +167,13 @@ func init() {
 				if r.Chance(40) {
 					d2.authList = r.Intn(len(authLists))
 				}
+				if r.Chance(8) {
+					// the pair in which something remembered from the first dial hurts most: auto-discovery, opportunistic
+					// TLS, a server that offers only mechanisms that reveal the password, encrypted first, clear text then
+					d1 = c07dims{policy: 1, auth: 1, host: r.Intn(4), adv: 1, authList: 1}
+					d2 = d1
+					d2.adv = 0
+				}
 				sc := d1.scenario()
 				sc.Redial = d2.scenario()
 				run := RunDial(sc)
@@ -186,12 +203,12 @@ func init() {
 		}})
 
 	register(Suite{Name: "c07-policy", Property: "C07",
-		Rule: "the finite table TLS policy {mandatory, opportunistic, none} x 13 auth types x host {other, localhost, a remote name that begins with \"localhost.\", LOCALHOST} x STARTTLS advertised or not x STARTTLS reply {220, 4yz, 5yz, garbage} x handshake {ok, wrong-name certificate, untrusted certificate, garbage} x 5 advertised AUTH lists, with real TLS handshakes in process; byte tap of everything written before TLS; event traces compared with the Lean dial model; quick tier samples the table, thorough enumerates it; non-trivial = TLS or AUTH attempted",
+		Rule: "the finite table TLS policy {mandatory, opportunistic, none} x 13 auth types x host {other, localhost, a remote name that begins with \"localhost.\", LOCALHOST, a name of 300 characters (client without a TLS configuration of its own; wrong certificate = one for the first 255 characters)} x STARTTLS advertised or not x STARTTLS reply {220, 4yz, 5yz, garbage} x handshake {ok, wrong-name certificate, untrusted certificate, garbage} x 5 advertised AUTH lists, with real TLS handshakes in process; byte tap of everything written before TLS; event traces compared with the Lean dial model; quick tier samples the table, thorough enumerates it; non-trivial = TLS or AUTH attempted",
 		Run: func(c *Ctx) {
 			var all []c07dims
 			for p := 0; p < 3; p++ {
 				for a := range allAuthTypes {
-					for h := 0; h < 4; h++ {
+					for h := 0; h < 5; h++ {
 						for adv := 0; adv < 2; adv++ {
 							for st := 0; st < 4; st++ {
 								for hs := 0; hs < 4; hs++ {
